@@ -1635,6 +1635,7 @@ class Cell(Bucket):
 
             if app.blacklisted:
                 _LOGGER.info('App %s is blacklisted', app.name)
+                app.release_identity()
                 continue
 
             if app.final_rank == _UNPLACED_RANK:
@@ -1642,8 +1643,8 @@ class Cell(Bucket):
                     assert app.server in servers
                     assert app.has_identity()
                     servers[app.server].remove(app.name)
-                    app.release_identity()
 
+                app.release_identity()
                 continue
 
             restore = {}
@@ -1694,6 +1695,7 @@ class Cell(Bucket):
             assert app.server is None
 
             if app.schedule_once and app.evicted:
+                app.release_identity()
                 continue
 
             # Check if placement is feasible.
@@ -1701,6 +1703,7 @@ class Cell(Bucket):
                 _LOGGER.info(
                     'Placement not feasible: %s %r', app.name, app.shape()
                 )
+                app.release_identity()
                 continue
 
             if not self.put(app):
